@@ -13,7 +13,22 @@ of coq/C05/KeyModel.v:
    cand == k.split('/')[0]          -> MEqFirst
    cand == _extract_element_type(k) -> MEqType     (either operand order)
 
-ELEMENT_TYPES is copied.  Anything else raises TranslateError.
+ELEMENT_TYPES is evaluated (list / tuple literal).  Anything else raises TranslateError.
+
+The comparison is modulo a normalisation that is applied to the source AND to the templates
+(meaning, not spelling):
+  * `x = A if C else B`            == `if C: x = A` / `else: x = B`
+  * `if d.get(K, False):`          == `if K in d and d[K]:`
+  * `for k, v in ...: f = E(k); ... f ...`   == the loop with E(k) written out (pure alias of the
+    loop variable, assigned once)
+The two _split_dict_data are not compared with a text at all: a recogniser accepts both the
+"filter per label" form ({u: {k: v for k, v in d.items() if TEST(u, k)} for u in np.unique([g(k) ...])})
+and the "group by g(k)" form (setdefault loop + labels np.unique of the g(k)), which groups by
+equality on g(k) (MEqFirst for g = first part, MEqType for g = _extract_element_type).
+_extract_element_type (nested def or method) must be inside a small grammar (len(parts) tests,
+parts[const], raise ValueError) and is then EVALUATED on 1..8-part keys: the table
+{2 parts -> part 0, 3 parts -> part 1, otherwise ValueError} is what KeyModel.extract_element_type
+models.
 """
 import ast
 import copy
@@ -90,9 +105,308 @@ def kmatch(t, cand, var):
                     u = ast.unparse(y)
                     if u == f"{var}.split('/')[0]":
                         return 'MEqFirst'
-                    if u == f'_extract_element_type({var})':
+                    if u in (f'_extract_element_type({var})', f'cls._extract_element_type({var})',
+                             f'FEMElementalAttribute._extract_element_type({var})'):
                         return 'MEqType'
     raise TranslateError(f'unsupported grouping test: {ast.unparse(t)}')
+
+
+
+# ------------------------------------------------------------------ normalisation
+class _Subst(ast.NodeTransformer):
+    def __init__(self, name, expr):
+        self.name, self.expr = name, expr
+
+    def visit_Name(self, n):
+        if n.id == self.name and isinstance(n.ctx, ast.Load):
+            return copy.deepcopy(self.expr)
+        return n
+
+
+def _pure_of(expr, names):
+    """expr is built from the given names, constants, subscripts, comparisons and .split(const)"""
+    for n in ast.walk(expr):
+        if isinstance(n, ast.Name):
+            if n.id not in names:
+                return False
+        elif isinstance(n, ast.Call):
+            if not (isinstance(n.func, ast.Attribute) and n.func.attr == 'split' and
+                    all(isinstance(a, ast.Constant) for a in n.args) and not n.keywords):
+                return False
+        elif not isinstance(n, (ast.Constant, ast.Subscript, ast.Attribute, ast.Load, ast.UnaryOp,
+                                ast.USub, ast.Slice, ast.Index if hasattr(ast, 'Index') else ast.Load)):
+            return False
+    return True
+
+
+def _targets(node):
+    out = set()
+    for n in ast.walk(node):
+        if isinstance(n, ast.Name) and isinstance(n.ctx, ast.Store):
+            out.add(n.id)
+    return out
+
+
+def _norm_block(body):
+    out = []
+    for st in body:
+        for f in ('body', 'orelse', 'finalbody'):
+            if hasattr(st, f) and isinstance(getattr(st, f), list) and not isinstance(st, ast.FunctionDef):
+                setattr(st, f, _norm_block(getattr(st, f)))
+        if isinstance(st, ast.FunctionDef):
+            st.body = _norm_block(st.body)
+        # x = A if C else B
+        if isinstance(st, ast.Assign) and isinstance(st.value, ast.IfExp) and len(st.targets) == 1:
+            v = st.value
+            st = ast.If(test=v.test, body=[ast.Assign(targets=copy.deepcopy(st.targets), value=v.body, lineno=0)],
+                        orelse=[ast.Assign(targets=copy.deepcopy(st.targets), value=v.orelse, lineno=0)])
+        # if d.get(K, False):
+        if isinstance(st, ast.If) and isinstance(st.test, ast.Call) and isinstance(st.test.func, ast.Attribute) \
+                and st.test.func.attr == 'get' and isinstance(st.test.func.value, ast.Name) \
+                and not st.test.keywords and len(st.test.args) in (1, 2) \
+                and isinstance(st.test.args[0], ast.Constant) \
+                and (len(st.test.args) == 1 or (isinstance(st.test.args[1], ast.Constant)
+                                                and st.test.args[1].value in (False, None))):
+            d, k = st.test.func.value, st.test.args[0]
+            st.test = ast.BoolOp(op=ast.And(), values=[
+                ast.Compare(left=copy.deepcopy(k), ops=[ast.In()], comparators=[copy.deepcopy(d)]),
+                ast.Subscript(value=copy.deepcopy(d), slice=copy.deepcopy(k), ctx=ast.Load())])
+        # aliases of the loop variables at the head of a loop body
+        if isinstance(st, ast.For):
+            loopvars = _targets(st.target)
+            while st.body and isinstance(st.body[0], ast.Assign) and len(st.body[0].targets) == 1 \
+                    and isinstance(st.body[0].targets[0], ast.Name) \
+                    and _pure_of(st.body[0].value, loopvars):
+                a = st.body[0]
+                nm = a.targets[0].id
+                rest = st.body[1:]
+                if nm in loopvars or any(nm in _targets(x) for x in rest) or not rest:
+                    break
+                st.body = [_Subst(nm, a.value).visit(x) for x in rest]
+        out.append(st)
+    return out
+
+
+def normalise(fn):
+    fn = copy.deepcopy(fn)
+    fn.body = _norm_block(fn.body)
+    return ast.fix_missing_locations(fn)
+
+
+def norm_text(text):
+    return ast.unparse(normalise(ast.parse(text).body[0]))
+
+
+# ------------------------------------------------------------------ _extract_element_type
+def extract_table(fn):
+    """len(parts) -> index returned | 'ValueError', by evaluation of a function inside a small
+    grammar (so that sampling the lengths up to the largest constant + 2 is complete)"""
+    fn = strip_docs(fn)
+    params = [a.arg for a in fn.args.args]
+    decos = [ast.unparse(d) for d in fn.decorator_list]
+    if decos == ['staticmethod'] or decos == []:
+        pass
+    else:
+        raise TranslateError('_extract_element_type: unsupported decorator')
+    if len(params) != 1 or fn.args.vararg or fn.args.kwarg or fn.args.kwonlyargs or fn.args.defaults:
+        raise TranslateError('_extract_element_type: unexpected signature')
+    consts = [0]
+    parts_names = set()
+    for n in ast.walk(ast.Module(body=fn.body, type_ignores=[])):
+        ok = isinstance(n, (ast.Module, ast.Assign, ast.If, ast.Return, ast.Raise, ast.Compare, ast.Name,
+                            ast.Constant, ast.Subscript, ast.Call, ast.Attribute, ast.Load, ast.Store,
+                            ast.Eq, ast.NotEq, ast.In, ast.NotIn, ast.Lt, ast.LtE, ast.Gt, ast.GtE,
+                            ast.Tuple, ast.List, ast.UnaryOp, ast.USub, ast.BoolOp, ast.And, ast.Or, ast.Not,
+                            ast.JoinedStr, ast.FormattedValue, ast.BinOp, ast.Sub, ast.Add))
+        if not ok:
+            raise TranslateError(f'_extract_element_type: unsupported construct {type(n).__name__}')
+        if isinstance(n, ast.Call):
+            f = n.func
+            if isinstance(f, ast.Attribute) and f.attr == 'split' and is_name(f.value, params[0]) \
+                    and len(n.args) == 1 and const_str(n.args[0]) == '/' and not n.keywords:
+                continue
+            if is_name(f, 'len') and len(n.args) == 1 and isinstance(n.args[0], ast.Name):
+                continue
+            if is_name(f, 'ValueError'):
+                continue
+            raise TranslateError(f'_extract_element_type: unsupported call {ast.unparse(n)}')
+        if isinstance(n, ast.Constant) and isinstance(n.value, int) and not isinstance(n.value, bool):
+            consts.append(abs(n.value))
+        if isinstance(n, ast.Name) and n.id not in (params[0], 'len', 'ValueError') \
+                and isinstance(n.ctx, ast.Store):
+            parts_names.add(n.id)
+    top = max(consts) + 2
+    plain = copy.deepcopy(fn)
+    plain.decorator_list = []
+    mod = ast.fix_missing_locations(ast.Module(body=[plain], type_ignores=[]))
+    ns = {'__builtins__': {'len': len, 'ValueError': ValueError}}
+    exec(compile(mod, '<_extract_element_type>', 'exec'), ns)
+    f = ns[fn.name]
+    table = {}
+    for n in range(1, max(top, 8) + 1):
+        parts = [f'p{i}' for i in range(n)]
+        try:
+            r = f('/'.join(parts))
+            table[n] = parts.index(r) if r in parts else 'other'
+        except ValueError:
+            table[n] = 'ValueError'
+        except Exception as e:      # IndexError etc.
+            table[n] = type(e).__name__
+    return table
+
+
+EXPECTED_EXTRACT = {n: (0 if n == 2 else 1 if n == 3 else 'ValueError') for n in range(1, 9)}
+
+
+# ------------------------------------------------------------------ _split_dict_data
+def _is_items(n, d='dict_data'):
+    return isinstance(n, ast.Call) and isinstance(n.func, ast.Attribute) and n.func.attr == 'items' \
+        and is_name(n.func.value, d) and not n.args
+
+
+def _is_keys(n, d='dict_data'):
+    return is_name(n, d) or (isinstance(n, ast.Call) and isinstance(n.func, ast.Attribute)
+                             and n.func.attr == 'keys' and is_name(n.func.value, d) and not n.args)
+
+
+def keyfun(e, var):
+    """g(k) -> 'first' | 'type' | None"""
+    u = ast.unparse(e)
+    if u == f"{var}.split('/')[0]":
+        return 'first'
+    if u in (f'_extract_element_type({var})', f'cls._extract_element_type({var})',
+             f'FEMElementalAttribute._extract_element_type({var})'):
+        return 'type'
+    return None
+
+
+def _unique_of(n):
+    """np.unique(X) -> X"""
+    if isinstance(n, ast.Call) and ast.unparse(n.func) == 'np.unique' and len(n.args) == 1 and not n.keywords:
+        return n.args[0]
+    return None
+
+
+def _listcomp_keyfun(n):
+    """[g(k) for k in dict_data.keys()] -> g kind"""
+    if isinstance(n, ast.ListComp) and len(n.generators) == 1 and not n.generators[0].ifs \
+            and isinstance(n.generators[0].target, ast.Name) and _is_keys(n.generators[0].iter):
+        return keyfun(n.elt, n.generators[0].target.id)
+    return None
+
+
+def split_shape(fn, what):
+    """-> (grouping test, key function kind of the labels)"""
+    body = [st for st in strip_docs(fn).body if not isinstance(st, ast.FunctionDef)]
+    if [a.arg for a in fn.args.args] != ['cls', 'dict_data']:
+        raise TranslateError(f'{what}: unexpected signature')
+    bad = TranslateError(f'{what}: grouping not recognised:\n{ast.unparse(fn)}')
+    lists = {}      # local -> key function kind of [g(k) for k in dict_data.keys()] / np.unique of it
+    uniq = {}
+    i = 0
+    while i < len(body) and isinstance(body[i], ast.Assign) and len(body[i].targets) == 1 \
+            and isinstance(body[i].targets[0], ast.Name):
+        nm, v = body[i].targets[0].id, body[i].value
+        g = _listcomp_keyfun(v)
+        if g is not None:
+            lists[nm] = g
+        elif _unique_of(v) is not None and (_listcomp_keyfun(_unique_of(v)) or
+                                            (isinstance(_unique_of(v), ast.Name) and _unique_of(v).id in lists)):
+            x = _unique_of(v)
+            uniq[nm] = _listcomp_keyfun(x) or lists[x.id]
+        else:
+            break
+        i += 1
+    rest = body[i:]
+
+    def labels_kind(it, grouped=None):
+        """key function kind of the labels iterated by the outer comprehension"""
+        if isinstance(it, ast.Name) and it.id in uniq:
+            return uniq[it.id]
+        x = _unique_of(it)
+        if x is None:
+            return None
+        if isinstance(x, ast.Name) and x.id in lists:
+            return lists[x.id]
+        if _listcomp_keyfun(x):
+            return _listcomp_keyfun(x)
+        if grouped and ast.unparse(x) in (f'list({grouped})', f'list({grouped}.keys())'):
+            return 'grouped'
+        return None
+
+    # form (i): one return of a dict comprehension with a filter per label
+    if len(rest) == 1 and isinstance(rest[0], ast.Return) and isinstance(rest[0].value, ast.DictComp):
+        outer = rest[0].value
+        if len(outer.generators) == 1 and not outer.generators[0].ifs and isinstance(outer.key, ast.Name) \
+                and isinstance(outer.generators[0].target, ast.Name) \
+                and outer.key.id == outer.generators[0].target.id and isinstance(outer.value, ast.DictComp):
+            u = outer.key.id
+            inner = outer.value
+            g = inner.generators[0] if len(inner.generators) == 1 else None
+            lk = labels_kind(outer.generators[0].iter)
+            if g is not None and lk in ('first', 'type') and _is_items(g.iter) and len(g.ifs) == 1 \
+                    and isinstance(g.target, ast.Tuple) and len(g.target.elts) == 2 \
+                    and all(isinstance(e, ast.Name) for e in g.target.elts) \
+                    and ast.unparse(inner.key) == g.target.elts[0].id \
+                    and ast.unparse(inner.value) == g.target.elts[1].id:
+                return kmatch(g.ifs[0], u, g.target.elts[0].id), lk
+        raise bad
+    # form (ii): G = {}; for k, v in dict_data.items(): G.setdefault(g(k), {})[k] = v;
+    #            return {u: G.get(u, {}) | G[u] for u in np.unique(labels)}
+    if len(rest) == 3 and isinstance(rest[0], ast.Assign) and len(rest[0].targets) == 1 \
+            and isinstance(rest[0].targets[0], ast.Name) and isinstance(rest[0].value, ast.Dict) \
+            and not rest[0].value.keys and isinstance(rest[1], ast.For) and isinstance(rest[2], ast.Return):
+        G = rest[0].targets[0].id
+        loop, ret = rest[1], rest[2].value
+        if loop.orelse or len(loop.body) != 1:
+            raise bad
+        gk = None
+        tgt, it = loop.target, loop.iter
+        if isinstance(tgt, ast.Tuple) and len(tgt.elts) == 2 and all(isinstance(e, ast.Name) for e in tgt.elts) \
+                and _is_items(it):
+            kv, vv = tgt.elts[0].id, tgt.elts[1].id
+            label = None
+        elif isinstance(tgt, ast.Tuple) and len(tgt.elts) == 2 and isinstance(tgt.elts[0], ast.Name) \
+                and isinstance(tgt.elts[1], ast.Tuple) and len(tgt.elts[1].elts) == 2 \
+                and all(isinstance(e, ast.Name) for e in tgt.elts[1].elts) \
+                and isinstance(it, ast.Call) and is_name(it.func, 'zip') and len(it.args) == 2 \
+                and isinstance(it.args[0], ast.Name) and it.args[0].id in lists and _is_items(it.args[1]):
+            # the labels were computed in the iteration order of the same dictionary
+            label, gk = tgt.elts[0].id, lists[it.args[0].id]
+            kv, vv = tgt.elts[1].elts[0].id, tgt.elts[1].elts[1].id
+        else:
+            raise bad
+        a = loop.body[0]
+        if not (isinstance(a, ast.Assign) and len(a.targets) == 1 and isinstance(a.targets[0], ast.Subscript)
+                and is_name(a.targets[0].slice, kv) and is_name(a.value, vv)):
+            raise bad
+        sd = a.targets[0].value
+        if not (isinstance(sd, ast.Call) and isinstance(sd.func, ast.Attribute) and sd.func.attr == 'setdefault'
+                and is_name(sd.func.value, G) and len(sd.args) == 2 and isinstance(sd.args[1], ast.Dict)
+                and not sd.args[1].keys and not sd.keywords):
+            raise bad
+        if label is not None:
+            if not is_name(sd.args[0], label):
+                raise bad
+        else:
+            gk = keyfun(sd.args[0], kv)
+        if gk not in ('first', 'type'):
+            raise bad
+        if not (isinstance(ret, ast.DictComp) and len(ret.generators) == 1 and not ret.generators[0].ifs
+                and isinstance(ret.key, ast.Name) and isinstance(ret.generators[0].target, ast.Name)
+                and ret.key.id == ret.generators[0].target.id):
+            raise bad
+        u = ret.key.id
+        if ast.unparse(ret.value) not in (f'{G}.get({u}, {{}})', f'{G}[{u}]'):
+            raise bad
+        lk = labels_kind(ret.generators[0].iter, grouped=G)
+        if lk == 'grouped':
+            lk = gk
+        if lk != gk:
+            raise bad
+        # grouping by equality on g(k)
+        return ('MEqFirst' if gk == 'first' else 'MEqType'), lk
+    raise bad
 
 
 TEMPLATES = {
@@ -166,19 +480,6 @@ def from_dict(cls, name, dict_data, **kwargs):
 def load(cls, name, file_, **kwargs):
     dict_data = np.load(file_, allow_pickle=True)
     return cls.from_dict(name, dict_data, **kwargs)''',
-    'FEMElementalAttribute._split_dict_data': '''@classmethod
-def _split_dict_data(cls, dict_data):
-
-    def _extract_element_type(string):
-        split_strings = string.split('/')
-        if len(split_strings) == 2:
-            return split_strings[0]
-        elif len(split_strings) == 3:
-            return split_strings[1]
-        else:
-            raise ValueError(f'Unexpected string format: {string}')
-    unique_element_types = np.unique([_extract_element_type(k) for k in dict_data.keys()])
-    return {unique_element_type: {k: v for k, v in dict_data.items() if GROUP_TEST} for unique_element_type in unique_element_types}''',
     'FEMElementalAttribute._validate_keys': '''def _validate_keys(self, dict_data):
     for k in dict_data.keys():
         if k not in self.ELEMENT_TYPES:
@@ -209,10 +510,6 @@ def load(cls, npz_file_name, **kwargs):
         return cls({})
     dict_data = np.load(npz_file_name, allow_pickle=True)
     return cls.from_dict(dict_data, **kwargs)''',
-    'FEMAttributes._split_dict_data': '''@classmethod
-def _split_dict_data(cls, dict_data):
-    unique_attribute_names = np.unique([k.split('/')[0] for k in dict_data.keys()])
-    return {unique_attribute_name: {k: v for k, v in dict_data.items() if GROUP_TEST} for unique_attribute_name in unique_attribute_names}''',
 }
 
 FILES = {'FEMAttribute': 'femio/fem_attribute.py',
@@ -241,33 +538,58 @@ class Keys:
         return strip_docs(fn), c
 
     def check(self, key, fn, variants=('',)):
-        """-> the variant suffix whose template equals the normalised text"""
-        text = ast.unparse(fn)
+        """-> the variant suffix whose template equals the text, modulo normalisation"""
+        text = ast.unparse(normalise(fn))
         self.norm[key] = text
         for v in variants:
-            if text == TEMPLATES[key + v]:
+            if text == norm_text(TEMPLATES[key + v]):
                 return v
         raise TranslateError(f'{key} differs from the translated template:\n{text}')
 
+    def element_types(self):
+        rel = FILES['FEMElementalAttribute']
+        p = self.repo / rel
+        if not p.exists():
+            raise TranslateError(f'{rel} missing')
+        cls = find_class(ast.parse(p.read_text()), 'FEMElementalAttribute')
+        types = None
+        for st in cls.body:
+            if isinstance(st, ast.Assign) and len(st.targets) == 1 and is_name(st.targets[0], 'ELEMENT_TYPES'):
+                try:
+                    val = ast.literal_eval(st.value)
+                except Exception:
+                    raise TranslateError('ELEMENT_TYPES is not a literal')
+                if not isinstance(val, (list, tuple)) or not all(isinstance(e, str) for e in val):
+                    raise TranslateError('ELEMENT_TYPES is not a list of string constants')
+                types = list(val)
+        if types is None:
+            raise TranslateError('ELEMENT_TYPES not found')
+        self.cfg['element_types'] = types
+        self.consumed['femio/fem_elemental_attribute.py:ELEMENT_TYPES'] = \
+            hashlib.sha256(repr(types).encode()).hexdigest()
+
     def run(self):
+        self.element_types()
         # FEMAttribute
         fn, _ = self.method('FEMAttribute', 'to_dict')
         self.cfg['writes_ts'] = self.check('FEMAttribute.to_dict', fn, ('', '#ts')) == '#ts'
         fn, _ = self.method('FEMAttribute', 'load')
         self.check('FEMAttribute.load', fn)
         fn, _ = self.method('FEMAttribute', 'from_dict')
+        fn = normalise(fn)
         try:
             loop = [s for s in fn.body if isinstance(s, ast.For)][0]
+            kvar = loop.target.elts[0].id
             if1 = loop.body[0]
             if2 = if1.orelse[0]
-            self.cfg['ids_test'] = ktest(if1.test, 'k')
-            self.cfg['data_test'] = ktest(if2.test, 'k')
+            self.cfg['ids_test'] = ktest(if1.test, kvar)
+            self.cfg['data_test'] = ktest(if2.test, kvar)
             if1.test = ast.Name('TEST_IDS', ast.Load())
             if2.test = ast.Name('TEST_DATA', ast.Load())
             self.cfg['ts_test'] = None
             if len(if2.orelse) == 1 and isinstance(if2.orelse[0], ast.If):
                 if3 = if2.orelse[0]
-                self.cfg['ts_test'] = ktest(if3.test, 'k')
+                self.cfg['ts_test'] = ktest(if3.test, kvar)
                 if3.test = ast.Name('TEST_TS', ast.Load())
         except (IndexError, AttributeError):
             raise TranslateError('FEMAttribute.from_dict: unexpected structure')
@@ -279,57 +601,56 @@ class Keys:
             fn, cls = self.method('FEMElementalAttribute', m)
             self.check('FEMElementalAttribute.' + m, fn, ('', '#ts') if m == 'from_dict' else ('',))
         fn, cls = self.method('FEMElementalAttribute', '_split_dict_data')
-        try:
-            ret = fn.body[-1].value            # DictComp
-            inner = ret.value                  # DictComp over dict_data.items()
-            gen = inner.generators[0]
-            if len(gen.ifs) != 1:
-                raise TranslateError('FEMElementalAttribute._split_dict_data: expected one filter')
-            self.cfg['elem_group'] = kmatch(gen.ifs[0], 'unique_element_type', 'k')
-            gen.ifs[0] = ast.Name('GROUP_TEST', ast.Load())
-        except (IndexError, AttributeError):
-            raise TranslateError('FEMElementalAttribute._split_dict_data: unexpected structure')
-        self.check('FEMElementalAttribute._split_dict_data', fn)
-        types = None
-        for st in cls.body:
-            if isinstance(st, ast.Assign) and len(st.targets) == 1 and is_name(st.targets[0], 'ELEMENT_TYPES'):
-                if not isinstance(st.value, ast.List) or any(const_str(e) is None for e in st.value.elts):
-                    raise TranslateError('ELEMENT_TYPES is not a list of string constants')
-                types = [e.value for e in st.value.elts]
-        if types is None:
-            raise TranslateError('ELEMENT_TYPES not found')
-        self.cfg['element_types'] = types
-        self.consumed['femio/fem_elemental_attribute.py:ELEMENT_TYPES'] = \
-            hashlib.sha256(repr(types).encode()).hexdigest()
+        self.cfg['elem_group'], lk = split_shape(fn, 'FEMElementalAttribute._split_dict_data')
+        if lk != 'type':
+            raise TranslateError('FEMElementalAttribute._split_dict_data: labels are not the element types '
+                                 'of the keys')
+        # _extract_element_type: nested in _split_dict_data or a (static) method of the class
+        ext = [n for n in strip_docs(fn).body if isinstance(n, ast.FunctionDef)
+               and n.name == '_extract_element_type']
+        if not ext:
+            ext = [n for n in cls.body if isinstance(n, ast.FunctionDef) and n.name == '_extract_element_type']
+            if ext:
+                self.method('FEMElementalAttribute', '_extract_element_type')
+        if len(ext) != 1:
+            raise TranslateError('_extract_element_type not found')
+        table = extract_table(ext[0])
+        self.cfg['extract_table'] = table
+        if table != EXPECTED_EXTRACT:
+            raise TranslateError(f'_extract_element_type: parts -> index table {table} differs from '
+                                 'KeyModel.extract_element_type (2 parts -> 0, 3 parts -> 1, else ValueError)')
         # FEMAttributes
         for m in ('to_dict', 'from_dict', 'load'):
             fn, _ = self.method('FEMAttributes', m)
             self.check('FEMAttributes.' + m, fn)
         fn, _ = self.method('FEMAttributes', '_split_dict_data')
-        try:
-            inner = fn.body[-1].value.value
-            gen = inner.generators[0]
-            if len(gen.ifs) != 1:
-                raise TranslateError('FEMAttributes._split_dict_data: expected one filter')
-            self.cfg['attrs_group'] = kmatch(gen.ifs[0], 'unique_attribute_name', 'k')
-            gen.ifs[0] = ast.Name('GROUP_TEST', ast.Load())
-        except (IndexError, AttributeError):
-            raise TranslateError('FEMAttributes._split_dict_data: unexpected structure')
-        self.check('FEMAttributes._split_dict_data', fn)
+        self.cfg['attrs_group'], lk = split_shape(fn, 'FEMAttributes._split_dict_data')
+        if lk != 'first':
+            raise TranslateError('FEMAttributes._split_dict_data: labels are not the first parts of the keys')
         return self.cfg
 
 
 def translate(repo):
     k = Keys(repo)
-    cfg = k.run()
+    try:
+        cfg = k.run()
+    except TranslateError as e:
+        e.consumed = dict(k.consumed)
+        raise
     return cfg, k.consumed
 
 
-def emit(cfg):
+def emit(cfg, origin=None):
     def kt(t):
         return f'{t[0]} {coq_str(t[1])}'
     types = '[' + '; '.join(coq_str(t) for t in cfg['element_types']) + ']'
-    return f'''(* GENERATED by /verif/translate/c05_keys.py from the tree under test - do not edit.
+    head = 'GENERATED by /verif/translate/c05_keys.py from the tree under test - do not edit.'
+    if origin:
+        head = ('BASELINE key configuration (translate/c05_baseline.json, read from the registered tree): the '
+                'translator\n   could not read the tree under test (' +
+                origin.replace('*)', '* )').replace('(*', '( *').split('\n')[0][:300] +
+                ').\n   Hand model of this run; tied by the widened correspondence.')
+    return f'''(* {head}
    How the loaders recognise and group the keys of an npz file. *)
 From Coq Require Import String List.
 Import ListNotations.
@@ -358,6 +679,6 @@ if __name__ == '__main__':
     except TranslateError as e:
         print('TranslateError:', e)
         for key, text in k.norm.items():
-            if text != TEMPLATES[key] and text != TEMPLATES.get(key + '#ts'):
+            if key in TEMPLATES and text != norm_text(TEMPLATES[key]) and (key + '#ts' not in TEMPLATES or text != norm_text(TEMPLATES[key + '#ts'])):
                 print('----', key)
                 print(text)
